@@ -3,6 +3,7 @@ package c09
 
 import (
 	"fmt"
+	"image"
 	"image/color"
 	"runtime"
 	"sync"
@@ -12,11 +13,13 @@ import (
 	"github.com/reactivego/ivg"
 	"github.com/reactivego/ivg/decode"
 	"github.com/reactivego/ivg/encode"
+	"github.com/reactivego/ivg/render"
 	"pgregory.net/rapid"
 
 	"verif/internal/gen"
 	"verif/internal/harness"
 	"verif/internal/ops"
+	"verif/internal/rast"
 	"verif/internal/spec"
 )
 
@@ -183,10 +186,16 @@ func TestDecoderForms(t *testing.T) {
 
 type EncCase struct {
 	Colors []ops.ColorV `json:"colors"`
+	// Palette: the suggested palette given to Reset before the colours are written (nil: none,
+	// a zero-value Encoder).
+	Palette *ops.Palette `json:"palette,omitempty"`
 }
 
 func checkEncodeIdentity(c EncCase) error {
 	var enc encode.Encoder
+	if c.Palette != nil {
+		enc.Reset(ivg.DefaultViewBox, [64]color.RGBA(*c.Palette))
+	}
 	want := make([]ivg.Color, len(c.Colors))
 	for i, cv := range c.Colors {
 		want[i] = cv.Color()
@@ -324,7 +333,25 @@ func TestEncodeIdentityRandom(t *testing.T) {
 			}
 			c.Colors = append(c.Colors, cv)
 		}
-		subEnc.See(c, true, harness.HashJSON(c))
+		var labels []string
+		if rapid.Bool().Draw(t, "pal") {
+			// a custom suggested palette, and direct colours that happen to equal its entries
+			p := gen.Palette(t, "pal", true)
+			if rapid.Bool().Draw(t, "palfull") {
+				for i := range p {
+					p[i] = gen.ValidRGBA(t, "pe")
+				}
+			}
+			c.Palette = &p
+			labels = append(labels, "custom-suggested-palette")
+			for i := range c.Colors {
+				if rapid.IntRange(0, 2).Draw(t, "frompal") == 0 {
+					c.Colors[i] = ops.RGBAv(p[rapid.IntRange(0, 63).Draw(t, "palidx")])
+					labels = append(labels, "direct-colour-equal-to-a-palette-entry")
+				}
+			}
+		}
+		subEnc.See(c, true, harness.HashJSON(c), labels...)
 		subEnc.Run(t, c)
 	})
 }
@@ -556,5 +583,93 @@ func TestBlendsRandomContexts(t *testing.T) {
 		c.CReg = gen.Palette(t, "creg", rapid.Bool().Draw(t, "validcreg"))
 		subBlend.See(c, c.T != 0 && c.T != 255 && c.C0 != c.C1, harness.HashJSON(c))
 		subBlend.Run(t, c)
+	})
+}
+
+// ---------------------------------------------------------------- blends stored by a Renderer
+
+// StoreCase: a sequence of colour-register writes (mostly blends whose operands are registers,
+// the same blend again after an operand changed) given to a Renderer; after every write a path
+// is filled from the written register.
+type StoreCase struct {
+	Palette ops.Palette `json:"palette"`
+	Writes  []StoreStep `json:"writes"`
+}
+
+type StoreStep struct {
+	Sel uint8      `json:"sel"`
+	C   ops.ColorV `json:"c"`
+}
+
+func checkStoredBlends(c StoreCase) error {
+	rr := &rast.Recorder{NoLattice: true}
+	var z render.Renderer
+	z.SetRasterizer(rr, image.Rect(0, 0, 16, 16))
+	z.Reset(ivg.DefaultViewBox, [64]color.RGBA(c.Palette))
+	pal := [64]color.RGBA(c.Palette)
+	creg := pal
+	for i, w := range c.Writes {
+		z.SetCSel(w.Sel)
+		z.SetCReg(0, false, w.C.Color())
+		creg[w.Sel&63] = spec.Resolve(w.C, &pal, &creg)
+		want := creg[w.Sel&63]
+		n0 := len(rr.Calls)
+		z.StartPath(0, -8, -8)
+		z.AbsLineTo(8, -8)
+		z.AbsLineTo(8, 8)
+		z.ClosePathEndPath()
+		var got *rast.Paint
+		for _, cl := range rr.Calls[n0:] {
+			if cl.K == rast.Draw {
+				got = cl.P
+			}
+		}
+		visible := spec.Premultiplied(want) && want.A != 0
+		switch {
+		case visible && (got == nil || got.Kind != "uniform" || got.Uniform != want):
+			return harness.Violatef("c09/stored-blend", "write %d (%v into CREG[%d]): the path filled from it is painted %v, the blend formula on the registers as they are now gives %v", i, w.C, w.Sel&63, got, want)
+		case !visible && !spec.IsGradient(want) && got != nil:
+			return harness.Violatef("c09/stored-blend", "write %d (%v into CREG[%d]) gives the invisible or invalid colour %v, yet the path was painted %v", i, w.C, w.Sel&63, want, got)
+		}
+	}
+	return nil
+}
+
+var subStore = harness.Define("stored-blend", "sequences of 3-12 colour-register writes into a Renderer (blends of registers and palette entries, plain colours, the same blend written again after one of its operand registers changed), a path filled from the written register after every write: the flat paint equals the blend formula on the register contents at the time of the write; non-trivial = a blend is written again after an operand register changed", checkStoredBlends)
+
+func TestStoredBlends(t *testing.T) {
+	harness.Rapid(t, harness.N(6000, 16*60000), func(t *rapid.T) {
+		var c StoreCase
+		c.Palette = gen.Palette(t, "pal", true)
+		for i := range c.Palette {
+			if rapid.Bool().Draw(t, "fill") {
+				c.Palette[i] = gen.ValidRGBA(t, "pe")
+			}
+		}
+		n := rapid.IntRange(3, 12).Draw(t, "n")
+		again := false
+		for i := 0; i < n; i++ {
+			sel := uint8(rapid.IntRange(0, 7).Draw(t, "sel"))
+			reg := func(l string) uint8 { return 0xc0 | uint8(rapid.IntRange(0, 7).Draw(t, l)) }
+			var cv ops.ColorV
+			switch k := rapid.IntRange(0, 5).Draw(t, "kind"); {
+			case k == 0:
+				cv = ops.RGBAv(gen.ValidRGBA(t, "plain"))
+			case k == 1 && i >= 2:
+				// the blend written two steps ago, again: one of its operands has usually changed
+				cv = c.Writes[i-2].C
+				if cv.T == 3 {
+					again = true
+				}
+			default:
+				cv = ops.ColorV{T: 3, R: gen.BlendT(t, "t"), G: reg("c0"), B: reg("c1")}
+				if rapid.Bool().Draw(t, "palop") {
+					cv.B = 0x80 | uint8(rapid.IntRange(0, 63).Draw(t, "palidx"))
+				}
+			}
+			c.Writes = append(c.Writes, StoreStep{Sel: sel, C: cv})
+		}
+		subStore.See(c, again, harness.HashJSON(c))
+		subStore.Run(t, c)
 	})
 }
